@@ -27,7 +27,7 @@ RefreshMs == 1000
 Init == ExInit(<<0, 0>>, <<0, 0>>) /\ appQ = << >> /\ refreshed = EmptyFn /\ firstMs = EmptyFn /\ closeMs = -1
         /\ marked = FALSE /\ peerGone = -1 /\ lastQ = FALSE /\ proto = "udp" /\ l = 1
 TReset == /\ IsEvent("Reset")
-          /\ tmpl' = EmptyFn /\ seq' = <<0, 0>> /\ dom' = ev.dom /\ okRecs' = <<0, 0>> /\ failAdv' = 0 /\ nmsg' = 0 /\ open' = TRUE
+          /\ tmpl' = EmptyFn /\ seq' = <<0, 0>> /\ dom' = ev.dom /\ okRecs' = <<0, 0>> /\ failAdv' = 0 /\ nmsg' = 0 /\ open' = TRUE /\ nextTid' = 255 /\ jsonMode' = FALSE
           /\ appQ' = << >> /\ refreshed' = EmptyFn /\ firstMs' = EmptyFn /\ closeMs' = -1 /\ marked' = FALSE /\ peerGone' = -1 /\ lastQ' = FALSE
           /\ proto' = ev.proto
 
